@@ -127,6 +127,7 @@ type State struct {
 	depth          int
 	ghost          map[string]Term
 	loopHeads      map[int]*State // state at the head of the current iteration of a loop with `step` clauses
+	loopEntries    map[string]*State // state on first arrival at a loop head (before the havoc), for atEntry(...) in its invariants
 	guardedOutside []string
 	condIdx        []int                   // indices into pc that are branch conditions
 	pend           string                  // goal of the last obligation (its assumption is a branch condition)
@@ -176,6 +177,12 @@ func (st *State) clone() *State {
 		resp:           st.resp[:len(st.resp):len(st.resp)],
 		epoch:          st.epoch,
 		modEpoch:       st.modEpoch[:len(st.modEpoch):len(st.modEpoch)],
+	}
+	if len(st.loopEntries) > 0 {
+		n.loopEntries = make(map[string]*State, len(st.loopEntries))
+		for k, v := range st.loopEntries {
+			n.loopEntries[k] = v
+		}
 	}
 	if len(st.loopHeads) > 0 {
 		n.loopHeads = make(map[int]*State, len(st.loopHeads))
